@@ -83,7 +83,7 @@ func (e *fnEnc) call(in ssa.Instruction, cc *ssa.CallCommon) []Term {
 			// uncontracted callee: havoc everything it could touch
 			res := mkRes("r." + shortKey(key))
 			callee := cc.StaticCallee()
-			inRepo := callee != nil && callee.Pkg != nil && (callee.Pkg == e.V.P.Bexpr || callee.Pkg == e.V.P.Grammar)
+			inRepo := callee != nil && e.V.P.repoPkg(callee) != nil
 			if inRepo && e.canInline(callee, key) {
 				if r, ok := e.inline(callee, key, args, pos); ok {
 					return r
@@ -245,7 +245,7 @@ func (e *fnEnc) havocLocated(con *Contract, key, loc string, args []Term, extra 
 		e.fail("%s:%d: assigns: unknown heap %q", con.File, con.Line, key)
 	}
 	env := e.baseEnv()
-	env.pkg = e.V.pkgOfKey(con.Key, e.fn.Pkg.Pkg)
+	env.pkg = e.V.pkgOfKey(con.Key, e.V.P.typesPkg(e.fn))
 	vars := map[string]Term{}
 	for k, v := range extra {
 		vars[k] = v
@@ -344,7 +344,7 @@ func (e *fnEnc) applyContractAt(con *Contract, args []Term, res []Term, pos toke
 		e.fail("%s:%d: contract %s binds %d parameters, call passes %d", con.File, con.Line, con.Key, len(con.Params), len(args))
 	}
 	env := e.baseEnv()
-	env.pkg = e.V.pkgOfKey(con.Key, e.fn.Pkg.Pkg)
+	env.pkg = e.V.pkgOfKey(con.Key, e.V.P.typesPkg(e.fn))
 	vars := map[string]Term{}
 	for k, v := range extra {
 		vars[k] = v
